@@ -498,6 +498,33 @@ def r12_reference_states(idx, r):
     r2_parallel_arrays(idx, r)
 
 
+def r13_links_name_their_target(idx, r):
+    """(a) Component.setLink(key, otherComp, otherCompKey) stores, under `key`, a link to dimension `otherCompKey` of `otherComp`: each of the
+    three parameters has its own place.  A link built with `key` in the place of `otherCompKey` follows the same-named dimension of the
+    neighbour (bond.id -> fuel.id instead of fuel.od).  (b) every dimension can hold a link, so the routine that sets links aside before a
+    backup scans all of DIMENSION_NAMES (rule shared with C16)."""
+    from .c16 import link_scan_rule
+    f = idx.method(COMP, "setLink")
+    ps = f.params()
+    if len(ps) != 4:
+        raise AnchorMissing("Component.setLink(key, otherComp, otherCompKey)")
+    _self, key, other, otherKey = ps
+    sts = [s_ for s_ in iter_stores(f.node) if s_.kind == "subscript" and norm(s_.node.value) == "self.p"]
+    if len(sts) != 1:
+        raise AnchorMissing("setLink: the store into self.p")
+    st = sts[0]
+    link = [c for c in ast.walk(st.value) if isinstance(c, ast.Call) and "DimensionLink" in norm(c.func)]
+    ok = norm(st.node.slice) == key and len(link) == 1 and link[0].args and isinstance(link[0].args[0], ast.Tuple) and [norm(x) for x in link[0].args[0].elts] == [other, otherKey]
+    r.require(ok, "setLink:stores-(otherComp, otherCompKey)-under-key", f, node=st.stmt,
+              msg=f"`{norm(st.stmt)[:90]}` does not store the link ({other}, {otherKey}) under {key}: the dimension follows another dimension of the neighbour than the one asked for")
+    link_scan_rule(idx, r)
+
+
+def r14_pairing(idx, r):
+    from ..pairing import pairing_rule
+    pairing_rule(idx, r, ["armi.reactor.components", "armi.reactor.converters.blockConverters", "armi.materials.material"], 80)
+
+
 def run(idx, chk):
     chk.explanation = (
         "C03: every two-dimensional shape's area formula is typed in the free abelian group generated by the linear expansion factor L "
@@ -525,3 +552,7 @@ def run(idx, chk):
                  necessary="a linked dimension follows the component it is linked to, before and after copies, backups and temperature changes")
     chk.run_rule("R03.12", "frozen copies take the present state as reference; dissolved dimensions are stored hot; (Tinput, Thot) stored and read in one order", lambda r: r12_reference_states(idx, r), floor=6,
                  necessary="a dimension at temperature T is the cold dimension times the expansion factor between the component's OWN input temperature and T")
+    chk.run_rule("R03.13", "setLink stores the link (otherComp, otherCompKey) under key; links are looked for in every dimension", lambda r: r13_links_name_their_target(idx, r), floor=2,
+                 necessary="a linked dimension equals the current dimension of the component and dimension it was linked to")
+    chk.run_rule("R03.14", "arguments stand at the parameter they are named after; sibling calls forward the same pass-through parameters", lambda r: r14_pairing(idx, r), floor=1,
+                 necessary="temperatures and dimensions are handed to the parameter they belong to")
